@@ -129,8 +129,13 @@ def gen_history(rng, hid, maxlen=6):
     ops = [{"op": "write", "frame": gen_frame(rng, pcols, n, nid, kpool, jpool, null_cols), "offsets": None}]
     ops[0]["offsets"] = offsets(rng, n)
     nid += n
+    one_handle = rng.random() < 0.15
     for _ in range(rng.randrange(0, maxlen)):
         kinds = ["append"] * 3 + ["remove"] * 2 + ["writergs"] * 3 + (["overwrite"] * 4 if pcols else [])
+        if one_handle:
+            # every operation after the first write goes through ONE long-lived ParquetFile (write_row_groups / remove_row_groups are
+            # its methods; write(append=...) would open another handle): Dataset/Handle.v, theorem C09_handle_refines
+            kinds = ["remove"] * 2 + ["writergs"] * 3
         kind = rng.choice(kinds)
         if kind == "remove":
             ops.append({"op": "remove", "sel_spec": [rng.randrange(0, 12) for _ in range(rng.choice([0, 1, 1, 2, 3]))],
@@ -146,6 +151,8 @@ def gen_history(rng, hid, maxlen=6):
             o["sort_pnames"] = rng.random() < 0.5
         ops.append(o)
     h = {"id": hid, "pcols": pcols, "ptypes": {"k": kkind, "j": jkind}, "ops": ops}
+    if one_handle:
+        h["one_handle"] = True
     if rng.random() < 0.15:
         h["user_open"] = True      # every call gets a plain user function as open_with: the ParquetFile then has no .fs
     return h
@@ -375,6 +382,7 @@ def run_history(arg):
         from fastparquet import ParquetFile, write
         pcols = h["pcols"]
         okw = {"open_with": plain_open} if h.get("user_open") else {}
+        handle = None
         for o in h["ops"]:
             raised = None
             sel = None
@@ -387,12 +395,16 @@ def run_history(arg):
                     write(root, to_df(o["frame"], pcols, h.get("ptypes"), o.get("y_int", False)), file_scheme="hive", partition_on=list(pcols), row_group_offsets=list(o["offsets"]),
                           append="overwrite", **okw)
                 elif o["op"] == "remove":
-                    pf = ParquetFile(root, **okw)
+                    if h.get("one_handle"):
+                        handle = handle or ParquetFile(root, **okw)
+                    pf = handle or ParquetFile(root, **okw)
                     n = len(pf.row_groups)
                     sel = list(range(n)) if o.get("all") else (sorted(set(i % n for i in o["sel_spec"])) if n else [])
                     pf.remove_row_groups([pf.row_groups[i] for i in sel], sort_pnames=o["sort_pnames"], **okw)
                 elif o["op"] == "writergs":
-                    pf = ParquetFile(root, **okw)
+                    if h.get("one_handle"):
+                        handle = handle or ParquetFile(root, **okw)
+                    pf = handle or ParquetFile(root, **okw)
                     pf.write_row_groups(to_df(o["frame"], pcols, h.get("ptypes"), o.get("y_int", False)), list(o["offsets"]), sort_key=sort_key_fn(o["sort_key"]),
                                         sort_pnames=o["sort_pnames"], **okw)
             except BaseException as e:           # noqa
@@ -400,6 +412,12 @@ def run_history(arg):
             out["resolved"].append(sel)
             obs = observe(root)
             obs["raised"] = raised
+            if handle is not None:
+                try:
+                    obs["handle"] = [[rg.columns[0].file_path for rg in handle.row_groups], int(handle.fmd.num_rows),
+                                     [int(v) for v in handle.to_pandas(columns=["x"])["x"].tolist()] if handle.row_groups else []]
+                except BaseException as e:      # noqa
+                    obs["handle"] = "%s: %s" % (type(e).__name__, str(e)[:120])
             out["steps"].append(obs)
     except BaseException:                         # noqa
         out["error"] = traceback.format_exc()[-3000:]
@@ -489,14 +507,14 @@ def run(ctx):
     # report it as a failing input - the dataset cannot be read back at all
     crashed = [(h, r) for h, r in zip(hs, results) if isinstance(r, dict) and "__crashed__" in r]
     for h, r in crashed[:5]:
-        pre = [{"id": h["id"] * 10 + n, "pcols": h["pcols"], "ptypes": h.get("ptypes"), "user_open": h.get("user_open"), "ops": h["ops"][:n]} for n in range(1, len(h["ops"]) + 1)]
+        pre = [{"id": h["id"] * 10 + n, "pcols": h["pcols"], "ptypes": h.get("ptypes"), "user_open": h.get("user_open"), "one_handle": h.get("one_handle"), "ops": h["ops"][:n]} for n in range(1, len(h["ops"]) + 1)]
         rr = C.pmap(run_history, [(x, ctx.scratch) for x in pre], nproc=4, job_timeout=30)
         bad = [x for x, y in zip(pre, rr) if isinstance(y, dict) and "__crashed__" in y]
         hh = bad[0] if bad else h
         o = hh["ops"][-1]
         ctx.fail({"component": "dataset-edit", "symptom": "process-crashed-or-hung", "op": o["op"], "partitioned": bool(h["pcols"]),
                   "emptied_before": False, "sort_pnames": bool(o.get("sort_pnames") or o["op"] == "overwrite")},
-                 {"history": {"id": h["id"], "pcols": h["pcols"], "ptypes": h.get("ptypes"), "user_open": h.get("user_open"), "ops": hh["ops"]}, "step": len(hh["ops"]) - 1, "observed": r["__crashed__"]},
+                 {"history": {"id": h["id"], "pcols": h["pcols"], "ptypes": h.get("ptypes"), "user_open": h.get("user_open"), "one_handle": h.get("one_handle"), "ops": hh["ops"]}, "step": len(hh["ops"]) - 1, "observed": r["__crashed__"]},
                  "running / observing this history kills or hangs the process: %s" % r["__crashed__"])
     if len(crashed) > 5:
         ctx.notes.append("%d histories crashed the worker process; 5 reported" % len(crashed))
@@ -524,6 +542,7 @@ def run(ctx):
         ctx.count("partition_columns", len(h["pcols"]))
         ctx.count("history_length", len(h["ops"]))
         ctx.count("open_with", "user function" if h.get("user_open") else "default")
+        ctx.count("handle", "one long-lived handle for every operation after the first write" if h.get("one_handle") else "fresh handle per operation")
         ctx.count("frames_with_missing_partition_keys", sum(1 for o in h["ops"] if any(r[c] is None for r in o.get("frame", []) for c in h["pcols"])))
         ctx.count("partition_value_kinds", "/".join((h.get("ptypes") or DEFAULT_PTYPES)[c] for c in h["pcols"]) or "-")
         if not isinstance(mo, list) or len(mo) != len(h["ops"]):
@@ -537,7 +556,7 @@ def run(ctx):
             def sid(x):
                 return SCHEMA_ID if (x is not None and x == ref_schema) else 2
             short = {"history": h["id"], "step": si, "op": o["op"], "pcols": h["pcols"], "sort_pnames": o.get("sort_pnames"), "sort_key": o.get("sort_key")}
-            case = {"history": {"id": h["id"], "pcols": h["pcols"], "ptypes": h.get("ptypes"), "user_open": h.get("user_open"), "ops": h["ops"][:si + 1]}, "step": si}
+            case = {"history": {"id": h["id"], "pcols": h["pcols"], "ptypes": h.get("ptypes"), "user_open": h.get("user_open"), "one_handle": h.get("one_handle"), "ops": h["ops"][:si + 1]}, "step": si}
             ctx.case({"h": h["ops"][:si + 1], "p": h["pcols"]}, trivial=si == 0)
             ctx.count("op", o["op"] + ("/sort_pnames" if o.get("sort_pnames") else ""))
             ctx.count("row_groups_after", min(len(msum), 12))
@@ -584,6 +603,10 @@ def run(ctx):
             ctx.correspondence("directory up to file names (multiset of (partition directory, rows)): model = real", short,
                                sorted([dir_of(p), ids] for p, ids in files_sx(mdir)), sorted([dir_of(p), ids] for p, ids in rdir))
             ctx.correspondence("num_rows field: model = real", short, mnum, obs["num_rows"])
+            if "handle" in obs:
+                # Handle.v `coherent`: the long-lived handle that made the operation equals a fresh open of the result
+                ctx.correspondence("the reused handle's row-group list, num_rows and read = the model's summary (C09_handle_refines)", short,
+                                   [[p for p, _ in files_sx(msum)], mnum, [i for _, ids in files_sx(msum) for i in ids]], obs["handle"])
             if spec is not None and acc:
                 ctx.correspondence("abs(model state) = spec_step (plain model) on this history", short, files_sx(mabs), spec)
             if problems:
